@@ -161,7 +161,7 @@ func mutate(t *rapid.T, q string) string {
 func genC07(t *rapid.T) c07Case {
 	c := c07Case{}
 	mode := rapid.SampledFrom(allModes).Draw(t, "mode")
-	c.Kind = rapid.SampledFrom([]string{"targeted", "targeted", "hostile_expr", "hostile_where", "hostile_join", "tvf", "mutation", "mutation", "data_flip", "options"}).Draw(t, "kind")
+	c.Kind = rapid.SampledFrom([]string{"targeted", "targeted", "targeted_join", "hostile_expr", "hostile_where", "hostile_join", "tvf", "mutation", "mutation", "data_flip", "options"}).Draw(t, "kind")
 	c.Files = c07Data(t, c.Kind == "data_flip" || rapid.IntRange(0, 5).Draw(t, "flipanyway") == 0)
 	var sql string
 	switch c.Kind {
@@ -176,6 +176,25 @@ func genC07(t *rapid.T) c07Case {
 			sql = "SELECT " + e + " AS x, COUNT(*) AS n FROM t.json t GROUP BY " + e
 		default:
 			sql = "SELECT a.a AS a FROM t.json a JOIN t.json t ON a.a = t.a WHERE (" + e + ") IS NULL"
+		}
+	case "targeted_join":
+		// equalities between the two join inputs in every operand arrangement (one-sided, two-sided, nested, non-column operands),
+		// in ON and in WHERE: the optimiser turns such equalities into join keys and pushes the rest into branches
+		operands := []string{"a.a", "t.a", "(a.a + t.a)", "(t.a + a.a)", "(a.a + 1.0)", "(t.a - 1.0)", "a.s", "t.s", "(a.s + t.s)", "len(a.s)", "coalesce(a.a, t.a)", "coalesce(t.a, 0.0)", "a.l[0]", "t.o->x", "(a.a, t.a)", "1.0", "NULL", "(SELECT u.a FROM t.json u LIMIT 1)"}
+		eq := func(l string) string {
+			return rapid.SampledFrom(operands).Draw(t, l+"l") + " " + rapid.SampledFrom([]string{"=", "=", "=", "!=", "<"}).Draw(t, l+"op") + " " + rapid.SampledFrom(operands).Draw(t, l+"r")
+		}
+		jt := rapid.SampledFrom([]string{"JOIN", "JOIN", "LOOKUP JOIN", "LEFT JOIN", "OUTER JOIN"}).Draw(t, "jt")
+		on := eq("on1")
+		if rapid.Bool().Draw(t, "on2") {
+			on += " AND " + eq("on2")
+		}
+		sql = "SELECT a.a AS x, t.s AS y FROM t.json a " + jt + " t.json t ON " + on
+		if rapid.Bool().Draw(t, "w") {
+			sql += " WHERE " + eq("w1")
+			if rapid.Bool().Draw(t, "w2") {
+				sql += " AND " + eq("w2")
+			}
 		}
 	case "hostile_expr":
 		sql = "SELECT " + hostileExpr(t, 3, "e") + " AS x FROM t.json t"
@@ -258,7 +277,7 @@ func c07Prop(c c07Case) ev.Outcome {
 
 func TestC07(t *testing.T) {
 	r := ev.New("C07", "exploration",
-		"query strings of ten kinds (targeted templates with hostile integers/floats/strings in every argument position of / substr * [] time functions LIKE ~ coalesce -> etc.; random hostile expressions over all functions, aggregates, operators, casts, indexing; hostile WHERE and JOIN ... ON predicates; table valued functions with hostile arguments incl. INTERVAL 0 and descriptors where expressions belong; token-level mutations (delete/duplicate/swap/splice) of 21 valid seed queries; queries over data that changes shape after the 100-row preview; option combinations) "+
+		"query strings of eleven kinds (join queries with equalities between the inputs in every operand arrangement in ON and WHERE; targeted templates with hostile integers/floats/strings in every argument position of / substr * [] time functions LIKE ~ coalesce -> etc.; random hostile expressions over all functions, aggregates, operators, casts, indexing; hostile WHERE and JOIN ... ON predicates; table valued functions with hostile arguments incl. INTERVAL 0 and descriptors where expressions belong; token-level mutations (delete/duplicate/swap/splice) of 21 valid seed queries; queries over data that changes shape after the 100-row preview; option combinations) "+
 			"x generated input files (JSON with lists/objects/nulls/times, 0..130 rows, shape flips after row 100, non-object lines; CSV with duplicate header, ragged rows; empty files; lines) x all output modes, run through the real binary; oracle: the process ends with exit status 0 or 1 and no Go panic / fatal error trace within the time cap (a timeout is inconclusive). "+
 			"non-trivial: the query reached execution or was rejected by the typechecker/planner rather than by the SQL parser or flag parsing. distinct = argv",
 		"range() and repeat counts are bounded (<= 100000) so out-of-memory is not mistaken for a finding")
